@@ -423,7 +423,8 @@ def _substitute(e: ast.expr, name: str, repl: ast.expr) -> ast.expr:
             if node.id == name and isinstance(node.ctx, ast.Load):
                 return ast.parse(ast.unparse(repl), mode="eval").body
             return node
-    return T().visit(ast.parse(ast.unparse(e), mode="eval").body)
+    import copy as _copy
+    return T().visit(_copy.deepcopy(e))     # (a slice tuple such as `:, i` cannot be re-parsed on its own)
 
 
 def _is_set_expr(f: FuncInfo, e: ast.expr, depth: int = 0) -> bool:
@@ -579,7 +580,7 @@ def _elem(it: ast.expr):
         if fn == "enumerate" and it.args:
             inner, cnt = _elem(it.args[0])
             start = it.args[1] if len(it.args) > 1 else kwarg(it, "start")
-            idx = I if start is None else ast.BinOp(left=I, op=ast.Add(), right=start)
+            idx = I if start is None or (isinstance(start, ast.Constant) and start.value == 0) else ast.BinOp(left=I, op=ast.Add(), right=start)
             return (idx, inner), cnt
         if fn == "zip" and it.args:
             parts, cnts = [], []
